@@ -58,6 +58,9 @@ def do_replay(check, path):
     if hs and os.environ.get('PYTHONHASHSEED') != str(hs):
         env = dict(os.environ, PYTHONHASHSEED=str(hs))
         os.execve(sys.executable, [sys.executable] + sys.argv, env)
+    if body.get('pyopt') and not sys.flags.optimize:
+        env = dict(os.environ, PYTHONOPTIMIZE='1')
+        os.execve(sys.executable, [sys.executable] + sys.argv, env)
     res = mod.execute(check, trace, True)
     v = res['violation']
     print('REPLAY check=%s file=%s digest=%s' % (check, path, res['digest']))
@@ -143,7 +146,8 @@ def main(argv):
         'VERIF_WALL_CAP', '1500' if tier == 'quick' else '14000'))
     agg, info = core.run_batches(SPEC_OF[check], check, tier, plan,
                                  wall_cap=wall_cap)
-    det_n, det_bad = determinism_sample(mod, check, tier, plan)
+    det_n, det_bad = (0, []) if os.environ.get('VERIF_SUBBATCH') else \
+        determinism_sample(mod, check, tier, plan)
     known, fixed = core.load_known()
     exit_code = 0
     lines = []
@@ -249,28 +253,38 @@ def main(argv):
             lines.append('  %s' % vj['detail'])
             exit_code = 1
     hashseed_batches = []
-    if check == 'C12' and not os.environ.get('VERIF_SUBBATCH'):
-        # Same runs again in fresh interpreters under other hash seeds; the
-        # pristine reference stays at PYTHONHASHSEED=0, so any dependence of
-        # the bytes on the hash seed fails the fresh-interpreter oracle there.
+    if not os.environ.get('VERIF_SUBBATCH'):
+        # The interpreter's configuration is ambient state too.  A fraction
+        # of the plan is executed again in fresh interpreters
+        #  - under `python -O` (asserts stripped, __debug__ false): all checks;
+        #  - under other hash seeds (C12 only; the pristine reference stays at
+        #    PYTHONHASHSEED=0, so any dependence of the bytes on the hash seed
+        #    fails the fresh-interpreter oracle there).
         import subprocess
         import tempfile
         import shutil
         main_digests = dict(d.split('=') for d in
                             agg.extra.get('digests', ()))
-        derived = str(core.run_seed(check, seed, 'hashseed', 0) % 4000000000)
-        for hs in ('1', derived):
-            tmp = tempfile.mkdtemp(prefix='verif-hs-')
+        configs = [('pyopt', '1', {'PYTHONOPTIMIZE': '1'}, 0.12)]
+        if check == 'C12':
+            derived = str(core.run_seed(check, seed, 'hashseed', 0) %
+                          4000000000)
+            configs += [('hashseed', '1', {'PYTHONHASHSEED': '1'}, 0.25),
+                        ('hashseed', derived, {'PYTHONHASHSEED': derived},
+                         0.25)]
+        for kind, val, envx, frac in configs:
+            tmp = tempfile.mkdtemp(prefix='verif-sub-')
             try:
-                env = dict(os.environ, PYTHONHASHSEED=hs, VERIF_SUBBATCH=hs,
-                           VERIF_SCALE=str(scale * 0.25),
+                env = dict(os.environ, VERIF_SUBBATCH='%s=%s' % (kind, val),
+                           VERIF_SCALE=str(scale * frac),
                            VERIF_EVIDENCE_DIR=tmp)
+                env.update(envx)
                 p = subprocess.run(
                     [sys.executable, os.path.join(core.VERIF, 'run'), check,
                      tier], capture_output=True, text=True, env=env,
                     cwd=core.VERIF, timeout=wall_cap)
                 out_lines = p.stdout.splitlines()
-                sub = {'hashseed': hs, 'rc': p.returncode}
+                sub = {kind: val, 'rc': p.returncode}
                 try:
                     ev = json.load(open(os.path.join(tmp, check + '.json')))
                     sub['runs'] = ev['coverage']['evaluations']
@@ -281,13 +295,13 @@ def main(argv):
                     common = [k for k in their if k in main_digests]
                     differ = [k for k in common
                               if their[k] != main_digests[k]]
-                    sub['digests_compared_with_hashseed_0'] = len(common)
+                    sub['digests_compared_with_main_batch'] = len(common)
                     sub['digests_differing'] = len(differ)
-                    if differ and p.returncode == 0:
+                    if differ and p.returncode == 0 and kind == 'hashseed':
                         harness_problem = (
                             'event-log digests differ between PYTHONHASHSEED'
                             '=0 and =%s for runs %r although no oracle '
-                            'failed' % (hs, differ[:4]))
+                            'failed' % (val, differ[:4]))
                 except Exception as e:
                     sub['error'] = repr(e)
                 if p.returncode == 1:
@@ -295,13 +309,14 @@ def main(argv):
                     for i, ln in enumerate(out_lines):
                         if ln.startswith('VIOLATION'):
                             lines.extend(out_lines[i:i + 3])
-                            lines.append('  (found under PYTHONHASHSEED=%s)'
-                                         % hs)
-                            reported.append({'hashseed': hs, 'line': ln,
+                            lines.append('  (found under %s=%s)' % (
+                                'python -O, PYTHONOPTIMIZE' if kind == 'pyopt'
+                                else 'PYTHONHASHSEED', val))
+                            reported.append({kind: val, 'line': ln,
                                              'known': False})
                 elif p.returncode != 0:
-                    harness_problem = ('hash-seed sub-batch %s exited %d: %s'
-                                       % (hs, p.returncode,
+                    harness_problem = ('%s=%s sub-batch exited %d: %s'
+                                       % (kind, val, p.returncode,
                                           (p.stdout + p.stderr)[-600:]))
                 hashseed_batches.append(sub)
             finally:
@@ -339,7 +354,7 @@ def main(argv):
             'confirmed_timeouts': info['confirmed_timeouts'],
             'confirmed_crashes': info['confirmed_crashes']},
         'digest_sample': sorted(agg.extra.pop('digests', ())),
-        'hashseed_batches': hashseed_batches,
+        'interpreter_configuration_batches': hashseed_batches,
         'determinism_sample': {'seeds_run_twice': det_n,
                                'mismatches': len(det_bad)},
         'components': REAL_STUB[world],
